@@ -47,7 +47,7 @@ def run_one(mu, tier, seed):
             res["status"] = "does-not-compile: " + r.stdout[-400:]
             return res
         t0 = time.time()
-        r = sh(["go", "test", "-vet=off", "-count=1"] + pkgs, cwd=wt, env=ENV)
+        r = sh(["go", "test", "-vet=off", "-count=1", "-timeout", "180s"] + pkgs, cwd=wt, env=ENV)
         res["own_tests"] = "pass" if r.returncode == 0 else "FAIL"
         res["own_tests_s"] = round(time.time() - t0, 1)
         t0 = time.time()
